@@ -1,9 +1,10 @@
 #!/usr/bin/env python3
-"""seedstore.py <prop> <k> <caught-by (comma list or 'none')> <note>: archive a confirmed seeded change under /verif/seeded/<prop>-<k>/"""
+"""seedstore.py <prop> <k> <caught-by (comma list or 'none')> <note> [<dst-k>]: archive a confirmed seeded change
+(/tmp/mut/<prop>/out/<k>) under /verif/seeded/<prop>-<dst-k or k>/"""
 import sys, os, json, shutil
 prop, k, caught, note = sys.argv[1], sys.argv[2], sys.argv[3], sys.argv[4]
 src = "/tmp/mut/%s/out/%s" % (prop, k)
-dst = "/verif/seeded/%s-%s" % (prop, k)
+dst = "/verif/seeded/%s-%s" % (prop, sys.argv[5] if len(sys.argv) > 5 else k)
 if os.path.exists(dst): shutil.rmtree(dst)
 os.makedirs(dst)
 shutil.copy(os.path.join(src, "patch.diff"), dst)
